@@ -832,6 +832,18 @@ def broadcast_shapes(a, b):
             out.append(y)
         elif cy == 1 and cx != 1:
             out.append(x)
+        elif (cx is None or cy is None) and not dim_term(x).eq(dim_term(y)):
+            # symbolic extents: equal, or one of them is 1 (numpy stretches it), otherwise numpy raises
+            ctx = Ctx.cur
+            tx, ty = dim_term(x), dim_term(y)
+            if ctx.branch(tx == ty):
+                out.append(x)
+            elif ctx.branch(tx == 1):
+                out.append(y)
+            elif ctx.branch(ty == 1):
+                out.append(x)
+            else:
+                raise ValueError("operands could not be broadcast together")
         else:
             same_dim(x, y)
             out.append(x if cx is None else (x if cy is None else x))
@@ -847,6 +859,11 @@ def broadcast_to(arr, shape, what="operands could not be broadcast together"):
     stretch = []
     for x, y in zip(ashape, shape):
         if dim_const(x) == 1 and dim_const(y) != 1:
+            stretch.append(True)
+        elif dim_const(x) is None and not dim_term(x).eq(dim_term(y)) and not Ctx.cur.branch(dim_term(x) == dim_term(y)):
+            # a symbolic extent that differs from the target: it is stretched iff it is 1
+            if not Ctx.cur.branch(dim_term(x) == 1):
+                raise ValueError(what)
             stretch.append(True)
         else:
             same_dim(x, y, what)
